@@ -66,6 +66,7 @@ def e1_job(module, cls, cfg, caps, nproc=None):
             return out
         res = tsx.explore(drv, h, max_states=caps.get("max_states"), max_depth=caps.get("max_depth"),
                           replay_cap=caps.get("replay_cap", 48),
+                          max_seconds=caps.get("max_seconds") or (int(os.environ.get("VERIF_JOB_SECONDS", "0")) or None),
                           parallel=(nproc, module, cls, cfg) if nproc else None)
         viols = []
         for v in res.violations:
